@@ -330,19 +330,27 @@ class H(Harness):
         fnname = {}
         taken = [0]
 
+        def lkey(l):
+            # SIR_VariableInfection wraps every SI edge in a fresh SingletonLocus per call: identify those by content
+            return ('singleton', repr(list(l))) if type(l).__name__ == "SingletonLocus" else id(l)
+
+        def fkey(f):
+            # ... and hands over a fresh bound method each time
+            return (id(f.__self__), f.__func__.__qualname__) if hasattr(f, '__self__') else id(f)
+
         def snap(t):
             dist = dyn.eventRateDistribution(t)
             mine = []
             for l in leaves:
                 p = objs[l['id']]
                 if hasattr(p, '_perElementEvents'):
-                    mine += [('E', id(x[0]), x[1], id(x[2]), x[3]) for x in p.perElementEventRateDistribution(t)]
+                    mine += [('E', lkey(x[0]), x[1], fkey(x[2]), x[3]) for x in p.perElementEventRateDistribution(t)]
             for l in leaves:
                 p = objs[l['id']]
                 if hasattr(p, '_perLocusEvents'):
-                    mine += [('F', id(x[0]), x[1], id(x[2]), x[3]) for x in p.fixedRateEventDistribution(t)]
+                    mine += [('F', lkey(x[0]), x[1], fkey(x[2]), x[3]) for x in p.fixedRateEventDistribution(t)]
             npe = len(dyn.perElementEventRateDistribution(t))
-            theirs = [('E' if i < npe else 'F', id(x[0]), x[1], id(x[2]), x[3]) for i, x in enumerate(dist)]
+            theirs = [('E' if i < npe else 'F', lkey(x[0]), x[1], fkey(x[2]), x[3]) for i, x in enumerate(dist)]
             attrs_now = state()[0]
             extra = {}
             vi = {}
@@ -784,7 +792,8 @@ class H(Harness):
                 bad += [(name, s) for s in stems if '@' in s]
             except Exception as e:     # a model that cannot be built is another property's business
                 out.append(('tieA:build:' + name, True, repr(e)))
-        shared_ok = (ep.CompartmentedModel.T_OCCUPIED, ep.CompartmentedModel.T_HITTING, ep.CompartmentedModel.HITTING_PROCESS_NAME) == SHARED
+        shared_ok = (ep.CompartmentedModel.T_OCCUPIED, ep.CompartmentedModel.T_HITTING, ep.CompartmentedModel.HITTING_PROCESS_NAME,
+                     ep.SIR_FixedRecovery.INFECTION_TIME) == SHARED and ep.SIS_FixedRecovery.INFECTION_TIME == SHARED[3]
         out.append(('tieA:stems-without-at-sign', not bad, bad))
         out.append(('tieA:shared-variable-names', shared_ok, SHARED))
         return out
